@@ -69,11 +69,11 @@ def _sf(v):
 
 
 def _vals_json(vals):
-    return {k: (str(v) if isinstance(v, Fraction) else v) for k, v in vals.items()}
+    return {k: ('frac:' + str(v) if isinstance(v, Fraction) else v) for k, v in vals.items()}
 
 
 def _vals_load(d):
-    return {k: Fraction(v) if isinstance(v, str) else v for k, v in d.items()}
+    return {k: Fraction(v[5:]) if isinstance(v, str) and v.startswith('frac:') else v for k, v in d.items()}
 
 
 def _concrete(cell, vals, seed=0):
